@@ -170,7 +170,10 @@ pub struct Outcome {
 }
 
 pub fn exec(case: &Case, forced: Vec<(u32, u32)>) -> (Vec<(u32, u32)>, Option<String>, Outcome) {
-    let cfg = SourceCfg::new(case.s, Grain::Choose(Menu::AllSizes)).record(true).fault_at(if case.fault { Some(case.s.len()) } else { None });
+    // in the displaced family with a meaningful filler the source scribbles that byte behind what it
+    // delivers as well
+    let filler = DISPLACED_FILLER.load(std::sync::atomic::Ordering::Relaxed);
+    let cfg = SourceCfg::new(case.s, Grain::Choose(Menu::AllSizes)).record(true).fault_at(if case.fault { Some(case.s.len()) } else { None }).scribble(if filler != b'y' { Some(filler) } else { None });
     let (source, st) = ScriptedSource::new(cfg, forced);
     let (expected, need) = reference(case.scan, case.s, case.offset);
     let mut problems = Vec::new();
@@ -178,7 +181,7 @@ pub fn exec(case: &Case, forced: Vec<(u32, u32)>) -> (Vec<(u32, u32)>, Option<St
     let pre = case.displaced.unwrap_or(0).min(case.s.len());
     let pre_calls = std::cell::Cell::new(0u32);
     let res = catch(|| {
-        let mut reader = DeferredReader::from_read(Prefixed { prefix: vec![b'y'; displaced_by], pos: 0, inner: source });
+        let mut reader = DeferredReader::from_read(Prefixed { prefix: vec![DISPLACED_FILLER.load(std::sync::atomic::Ordering::Relaxed); displaced_by], pos: 0, inner: source });
         reader.set_chunk_size(case.chunk);
         if displaced_by > 0 {
             reader.request(displaced_by + pre);
@@ -234,6 +237,11 @@ pub fn exec(case: &Case, forced: Vec<(u32, u32)>) -> (Vec<(u32, u32)>, Option<St
     }
     (st.chooser.taken.clone(), st.chooser.diverged.clone(), Outcome { problems, reads: st.read_calls, result })
 }
+
+/// The byte the displaced prefix consists of. After the realigning refill the bytes right behind
+/// the valid window are stale copies of it (and of the text): with a line feed, blank or carriage
+/// return there, a scanner that looks one byte beyond the window finds something meaningful.
+static DISPLACED_FILLER: std::sync::atomic::AtomicU8 = std::sync::atomic::AtomicU8::new(b'y');
 
 /// strings up to this length also run with a displaced start (set from the tier in `run`)
 static DISPLACED_MAX_LEN: std::sync::atomic::AtomicUsize = std::sync::atomic::AtomicUsize::new(5);
@@ -302,6 +310,7 @@ fn replay_value(case: &Case, taken: &[(u32, u32)]) -> Value {
         "offset": case.offset,
         "chunk": case.chunk,
         "displaced": case.displaced,
+        "filler": DISPLACED_FILLER.load(std::sync::atomic::Ordering::Relaxed),
         "complete": case.complete,
         "fault": case.fault,
         "choices": taken.iter().map(|(c, n)| json!([c, n])).collect::<Vec<_>>(),
@@ -427,20 +436,25 @@ pub fn displaced_family(tier: Tier, report: &mut Report) {
     for n in 0..=max_len {
         strings.extend(strings_of_len(n));
     }
-    let total = mc_core::par::par_fold(
-        strings.len(),
-        mc_core::threads(),
-        Report::new,
-        |acc, i| {
-            let s = &strings[i];
-            let offsets: Vec<usize> = (0..=s.len() + 1).collect();
-            check_string_variants(s, &offsets, &[1, 2, 4], None, &[Some(0), Some(1), Some(2), Some(3)], "C14", acc);
-            acc.states += 1;
-        },
-        |a, b| a.merge(b),
-    );
-    report.merge(total);
-    report.completed.push(format!("text scanners with a displaced cursor: {} strings x offsets x scanners/patterns x chunk {{1,2,4}} x all read schedules", strings.len()));
+    let fillers: Vec<u8> = tier.pick(vec![b'y', b'\n'], vec![b'y', b'\n', b' ', b'\r', b'x']);
+    for &filler in &fillers {
+        DISPLACED_FILLER.store(filler, std::sync::atomic::Ordering::Relaxed);
+        let total = mc_core::par::par_fold(
+            strings.len(),
+            mc_core::threads(),
+            Report::new,
+            |acc, i| {
+                let s = &strings[i];
+                let offsets: Vec<usize> = (0..=s.len() + 1).collect();
+                check_string_variants(s, &offsets, &[1, 2, 4], None, &[Some(0), Some(1), Some(2), Some(3)], "C14", acc);
+                acc.states += 1;
+            },
+            |a, b| a.merge(b),
+        );
+        report.merge(total);
+    }
+    DISPLACED_FILLER.store(b'y', std::sync::atomic::Ordering::Relaxed);
+    report.completed.push(format!("text scanners with a displaced cursor: {} strings x offsets x scanners/patterns x chunk {{1,2,4}} x all read schedules x prefix fillers {:?} (stale bytes behind the window)", strings.len(), fillers));
 }
 
 pub fn run(tier: Tier, report: &mut Report) {
@@ -598,6 +612,7 @@ pub fn replay(v: &Value) -> (bool, String) {
         _ => Scan::Fixed(unhex(v["pattern_hex"].as_str().unwrap())),
     };
     let forced: Vec<(u32, u32)> = v["choices"].as_array().unwrap().iter().map(|c| (c[0].as_u64().unwrap() as u32, c[1].as_u64().unwrap() as u32)).collect();
+    DISPLACED_FILLER.store(v["filler"].as_u64().map_or(b'y', |f| f as u8), std::sync::atomic::Ordering::Relaxed);
     let case = Case { s: &s, offset: v["offset"].as_u64().unwrap() as usize, scan: &scan, chunk: v["chunk"].as_u64().unwrap() as usize, displaced: v["displaced"].as_u64().map(|k| k as usize), complete: v["complete"].as_bool().unwrap_or(false), fault: v["fault"].as_bool().unwrap_or(false) };
     let (taken, diverged, outcome) = exec(&case, forced.clone());
     let (_, _, outcome2) = exec(&case, forced);
